@@ -270,7 +270,7 @@ func init() {
 		WorkersPerCPU: 3,
 		Technique:     "runtime monitoring under the Go race detector: offline precedence checker over the sequence-numbered enter/exit event log of real Graph.Run executions with controller-chosen completion orders; plain dependency cells decide visibility",
 		Rule: "small scope exhaustive: every topologically-labelled DAG on n<=3 (quick) / n<=4 (thorough) vertices x every outcome script per task {ok, err, ErrorSkipParents, fail-then-ok, fail-fail, fail-fail-ok under retries} x {parallel, limit 1, limit 2, serial} x EVERY completion order reachable by the controller (stateless DFS, re-execution per order); " +
-			"then random DAGs up to 12 vertices with PRNG orders, 'release everything at once' (uncontrolled) and eager stress runs; distinct = (graph, plan, mode); distinct interleavings = distinct event sequences observed; non-trivial = graph has at least one edge",
+			"then random DAGs up to 12 vertices with PRNG orders, 'release everything at once' (uncontrolled) and eager stress runs, with tasks added again at random places of the history, buffered output, task errors that wrap context errors, tasks built as struct literals and an earlier failed Run of the same graph; distinct = (graph, plan, mode); distinct interleavings = distinct event sequences observed; non-trivial = graph has at least one edge",
 		Assumptions: common,
 		Cases: func(tier string) int {
 			if tier == "thorough" {
@@ -366,7 +366,7 @@ func init() {
 		Race:          true,
 		WorkersPerCPU: 3,
 		Technique:     "runtime monitoring under the Go race detector: outcome rules over the event log, the returned *dag.Errors (errors.As / errors.Is per entry) and the recorded Logger lines of real Graph.Run executions, with controller-placed cancellation points",
-		Rule: "every DAG on n<=3 (quick) / n<=4 (thorough) vertices x outcome assignment over {ok, err, ErrorSkipParents, retry scripts} x cancel point {none, before Run, after the k-th release for every k, from inside each task} x mode, each under EVERY completion order (n<=3) or PRNG orders; random DAGs up to 10 vertices beyond; " +
+		Rule: "every DAG on n<=3 (quick) / n<=4 (thorough) vertices x outcome assignment over {ok, err, ErrorSkipParents, retry scripts} x cancel point {none, before Run, after the k-th release for every k, from inside each task} x mode, each under EVERY completion order (n<=3) or PRNG orders; random DAGs up to 10 vertices beyond; contexts that end with Canceled or DeadlineExceeded, task errors wrapping context errors, buffered output, an earlier failed Run of the same graph; " +
 			"distinct = (graph, plan, mode, cancel point); non-trivial = at least one task fails, skips its parents or the context is cancelled",
 		Assumptions: append(common, "tasks already launched and waiting for a SetMaxParallel slot when cancellation is seen count as in flight (DESIGN N1); counted in evidence"),
 		Cases: func(tier string) int {
@@ -454,7 +454,7 @@ func init() {
 		Race:          true,
 		WorkersPerCPU: 3,
 		Technique:     "runtime monitoring under the Go race detector: live-task counter and interval checker over the event log (bound, serial, per-Task mutual exclusion across concurrently running graphs), contiguity checker over the bytes received by a deliberately unsynchronized writer, plain shared counters raced on purpose",
-		Rule: "saturating workloads: wide/layered DAGs with more ready tasks than the limit m (m=1..5, serial), tasks held open by the controller so the bound is pressed (runs reaching peak==limit are counted); 2-4 graphs over the same Task objects run concurrently (eager, tasks hold up to 200us); output buffering with several chunks per attempt under 'release everything at once' and eager policies, retries included; " +
+		Rule: "saturating workloads: wide/layered DAGs with more ready tasks than the limit m (m=1..5, serial), tasks held open by the controller so the bound is pressed (runs reaching peak==limit are counted); 2-4 graphs over the same Task objects run concurrently (eager, tasks hold up to 200us); output buffering with several chunks per attempt (also above 64 KiB) under 'release everything at once' and eager policies, retries included; cancellation while all slots are held and further tasks wait for one; an earlier Run of the same Graph object with a larger limit; shared-task workloads with some graphs in serial mode and struct-literal tasks; " +
 			"distinct = (graph, plan, mode, policy); non-trivial = more tasks can be ready than the bound allows, or graphs share tasks, or output is buffered",
 		Assumptions: common,
 		Cases: func(tier string) int {
@@ -558,7 +558,7 @@ func init() {
 		WorkersPerCPU: 3,
 		Technique:     "runtime monitoring under the Go race detector: invariant at the scheduler's idle-tick hook (fixpoint = deadlock, decided in logical time), bounded-progress watchdog, work-conservation check at fresh quiescent points, cycle/definition-error rule and topological check of DepthFirstSort, all on real graphs built by public-API call histories",
 		Rule: "construction histories over 3 tasks: ALL call sequences of length <= 4 (thorough: <= 5 sampled exhaustively by index) over {AddTask(x), TaskDependsOn(x,y), TaskRetries(x,r)} incl. re-adding known tasks before/after they got edges, duplicate edges, self edges, cycles, nil tasks, edges declared before AddTask; every history is run to completion or to a verdict under all outcomes ok and under random outcome plans, orders by DFS (small) or PRNG; " +
-			"random DAGs up to 12 vertices for work conservation; distinct = (history, plan, mode); non-trivial = the history re-adds a task, duplicates an edge, contains a cycle or has at least one edge",
+			"random DAGs up to 12 vertices (with retries, failing scripts and cancellation points, DepthFirstSort called while the graph is still being built, a failing output writer) for work conservation and bounded progress; distinct = (history, plan, mode); non-trivial = the history re-adds a task, duplicates an edge, contains a cycle or has at least one edge",
 		Assumptions: common,
 		Cases: func(tier string) int {
 			if tier == "thorough" {
